@@ -334,7 +334,13 @@ def run(ctx):
     sub14 = subrun(ctx, "c14")
     for c_ in cyc:
         key = "cycle:%s" % "→".join(x.split("::")[-1] for x in c_)
-        if c_ == (kvp_fn,) and not sub14.get("C14.R6"):
+        kvp_helpers = set()
+        try:
+            from . import roles as _roles
+            kvp_helpers = set(_roles.ib_paths(prog, kvp_fn).fn.get("inlined") or [])
+        except Exception:
+            pass
+        if kvp_fn in c_ and all(x == kvp_fn or x in kvp_helpers for x in c_) and not sub14.get("C14.R6") and not sub14.get("*"):
             r4.ok(key, "the key-value processor's self re-dispatch clears the pending sign first (C14.R6)")
         else:
             r4.violation(key, "recursion %s without a termination witness" % " → ".join(c_), common.fn_line(prog, c_[0]))
@@ -350,12 +356,7 @@ def run(ctx):
             def finite_next(tt):
                 if tt["k"] != "call" or not (callee_name(tt).endswith("::next") or callee_name(tt).endswith("::next_back")) or not tt["args"] or tt["args"][0]["k"] == "const":
                     return False
-                ty = tt["args"][0]["place"]["ty"]
-                if not ty.startswith("&mut std::") and not ty.startswith("&mut core::"):
-                    return False
-                # unbounded std sources
-                return not any(x in ty for x in ("Cycle<", "Repeat<", "RepeatWith<", "RangeFrom<", "Successors<", "FromFn<", "io::Lines", "io::Bytes", "Incoming",
-                                                 "mpsc::", "io::Split"))
+                return iter_finite(tt["args"][0]["place"]["ty"])
             driven = finite_next(t)
             if not driven:
                 # the iterator call may sit in the first block of the body
@@ -365,6 +366,65 @@ def run(ctx):
                 r4.violation("loop@%s#bb%d" % (fk.split("::")[-1], h), "a loop in %s is not driven by an in-memory iterator's next() (while/loop on a mutable condition)" % fk, site_of(b, h))
     r4.ok("loops", "%d loops in the reachable code, all driven by Iterator::next of in-memory iterators" % n_loops)
     r4.floor(2, "cycle witness + loops")
+
+
+UNBOUNDED_ITERS = ("Cycle", "Repeat", "RepeatWith", "RangeFrom", "Successors", "FromFn", "Lines", "Bytes", "Incoming", "Iter@mpsc", "TryIter", "Split@io")
+ADAPTORS_1 = ("Map", "Filter", "FilterMap", "Rev", "Skip", "SkipWhile", "TakeWhile", "Enumerate", "Peekable", "Cloned", "Copied", "Inspect", "StepBy",
+              "Fuse", "MapWhile", "Scan", "Flatten")
+
+
+def _split_generics(ty):
+    """('std::iter::Zip', [arg, arg]) for 'std::iter::Zip<A, B>' (nesting-aware)."""
+    i = ty.find("<")
+    if i < 0 or not ty.endswith(">") or ty.startswith("{") or ty.startswith("<"):
+        return ty, []
+    head, inner = ty[:i], ty[i + 1:-1]
+    args, depth, cur = [], 0, ""
+    for j, ch in enumerate(inner):
+        if ch in "<({[":
+            depth += 1
+        elif ch in ")}]":
+            depth -= 1
+        elif ch == ">" and not (j > 0 and inner[j - 1] == "-"):
+            depth -= 1
+        if ch == "," and depth == 0:
+            args.append(cur.strip())
+            cur = ""
+        else:
+            cur += ch
+    if cur.strip():
+        args.append(cur.strip())
+    return head, args
+
+
+def iter_finite(ty):
+    """Structural finiteness of a std iterator type: in-memory sources are finite, Zip is finite when either side is,
+    Chain / FlatMap when both are, Take always; unbounded generators, I/O and channel iterators and unknown (non-std, dyn) types are not."""
+    while ty.startswith("&mut ") or ty.startswith("&"):
+        ty = ty[5:] if ty.startswith("&mut ") else ty[1:]
+    head, args = _split_generics(ty)
+    if not (head.startswith("std::") or head.startswith("core::") or head.startswith("alloc::")):
+        return False
+    name = head.split("::")[-1]
+    if name in ("Lines", "Bytes", "Split") and "::io::" in head:
+        return False
+    if name in ("Iter", "IntoIter", "TryIter", "Incoming") and ("mpsc" in head or "::net::" in head):
+        return False
+    if name in ("Cycle", "Repeat", "RepeatWith", "RangeFrom", "Successors", "FromFn", "Incoming", "TryIter", "ReadDir"):
+        return False
+    if name == "Zip" and len(args) == 2:
+        return iter_finite(args[0]) or iter_finite(args[1])
+    if name == "Take":
+        return True
+    if name == "Chain" and len(args) == 2:
+        return iter_finite(args[0]) and iter_finite(args[1])
+    if name == "FlatMap" and len(args) >= 2:
+        return iter_finite(args[0]) and iter_finite(args[1])
+    if name in ADAPTORS_1 and args:
+        return iter_finite(args[0])
+    if name == "Box" or "dyn " in ty:
+        return False
+    return True
 
 
 def _builder_text_is_buffer(prog, R, roles, ph):
@@ -416,7 +476,7 @@ def ascii_input(prog, ctx, fk, b, t, R, roles, ph, buf_ascii, acc):
         # user branch filtered by is_ascii (C10.R2), bundled branch: table check
         from . import c01 as _self
         sub10 = subrun(ctx, "c10")
-        user_ok = not any(i["key"] == "ascii-filter" for i in sub10.get("C10.R2", []))
+        user_ok = not any(i["key"] == "ascii-filter" for i in sub10.get("C10.R2", [])) and not sub10.get("*")
         ac = tables.load_json("autocorrect.json")
         # only entries whose key can be typed (ASCII, C01.R2) are ever looked up
         bundled_ok = all(all(ord(ch) < 0x80 for ch in v) for k_, v in ac.items() if all(ord(ch) < 0x80 for ch in k_))
@@ -528,6 +588,21 @@ def discharge_call(prog, ctx, fk, b, i, t, n, R, roles, reph_fns, sub13, sub15, 
         if fk == R["commit"] and idx.k == "arg" and idx.a[0] == 2 and lst == (R["sug_field"], R["rank_list"]) and \
                 any(d.k == "call" and d.a[0].endswith("get_phonetic_suggestion") and pol is True for (d, pol, s) in g):
             return True, "D-contract: commit index is inside the most recently returned list, which is a copy of this vector (C02.R1 / C09.R3), suggestions on"
+        # the site may sit in a private helper of commit: judge it on commit's inlined body
+        from . import roles as _roles
+        if _only_called_from(prog, fk, R["commit"]):
+            cb = _roles.ib(prog, R["commit"])
+            sites = [(bb, t2) for (bb, t2) in cb.calls() if callee_name(t2).endswith("::index") and "Vec" in callee_name(t2)]
+            good = bool(sites)
+            for (bb, t2) in sites:
+                i2 = strip_refs(cb.expr_operand(t2["args"][1]))
+                l2 = self_path(cb.expr_operand(t2["args"][0]))
+                g2 = guards_of(cb, bb)
+                if not (i2.k == "arg" and i2.a[0] == 2 and l2 == (R["sug_field"], R["rank_list"]) and
+                        any(d.k == "call" and d.a[0].endswith("get_phonetic_suggestion") and pol is True for (d, pol, s) in g2)):
+                    good = False
+            if good:
+                return True, "D-contract (in a private helper of commit): commit index inside the most recently returned list, suggestions on"
         return False, "Vec index %r of %s is not covered by the commit contract" % (idx, lst)
     if n.endswith("::index"):
         return False, "indexing %s" % n
@@ -558,7 +633,7 @@ def discharge_call(prog, ctx, fk, b, i, t, n, R, roles, reph_fns, sub13, sub15, 
         if f.get("output") in ("Self", builders.fixed_ty(prog)) and owner == builders.fixed_ty(prog):
             if contains_call(recv, lambda m: m.endswith("Config::get_layout")) is not None:
                 return True, "D-contract: a fixed-layout context is created with a layout file that parses (set_layout_file validated the path)"
-        bad10 = [x for x in sub10.get("C10.R1", []) if x["key"].startswith("unwrap") or x["key"].startswith("expect")]
+        bad10 = [x for x in sub10.get("C10.R1", []) if x["key"].startswith("unwrap") or x["key"].startswith("expect")] + list(sub10.get("*", []))
         return False, "receiver %s is not covered by a discharge rule" % (repr(peel_conv(recv))[:160])
     if any(n.startswith(p) for p in PANIC_FNS):
         return False, "explicit panic reachable from an event"
@@ -588,5 +663,17 @@ def _find_split(b, s_e, idx):
         if a.k == "local" or a.k == "cycle":
             ok = False
         if not ok:
+            return False
+    return True
+
+
+def _only_called_from(prog, fk, top, depth=0):
+    sites = prog.call_sites.get(fk, [])
+    if not sites or depth > 4:
+        return False
+    for (caller, bb, t) in sites:
+        if caller == top:
+            continue
+        if not _only_called_from(prog, caller, top, depth + 1):
             return False
     return True
